@@ -51,7 +51,7 @@ class C13(Prop):
         top = 5 if tier == "quick" else 6
         for n in range(top + 1):
             out.extend(self._all_graphs(n))
-        nr, nmax = (300, 40) if tier == "quick" else (3000, 120)
+        nr, nmax = (300, 40) if tier == "quick" else (1000, 80)  # 3000 graphs on up to 120 nodes cost 35 min of coqc for literals alone
         out += [self._random(rng, nmax) for _ in range(nr)]
         return out
 
